@@ -95,6 +95,15 @@ def design_of(case):
     z = np.zeros((len(idx), n_cond))
     for r, k in enumerate(idx):
         z[r, k] = 1.0
+    if d['form'] == 'mixture':
+        # encoding-style design matrix: besides one-condition rows, rows that mix two conditions
+        # with weights summing to one (compound trials, amplitude-modulated regressors)
+        extra = np.zeros((len(d['mix']), n_cond))
+        for r, (a, b, w) in enumerate(d['mix']):
+            extra[r, a % n_cond] += w
+            extra[r, (a + 1 + b % (n_cond - 1)) % n_cond] += 1.0 - w
+        z = np.vstack([z, extra])[list(d['order'])]
+        return z, None
     return z, idx
 
 
@@ -176,6 +185,8 @@ def check_roundtrip(case):
     dss = simulate(case, mod, theta, cond_vec, noise=0.0)
     require(isinstance(dss, list) and len(dss) == case['n_sim'],
             'make_dataset returned %d datasets for n_sim=%d' % (len(dss), case['n_sim']), 'n_sim')
+    if cond_idx is None:
+        return check_mixture_design(case, dss, mod, theta, pred, cond_vec)
     direct = cond_vec.ndim == 1 and (theta is None or len(theta) == 1)
     expect = {pr: case['signal'] * float(pred[k]) for k, pr in enumerate(ref.pairs(n_cond))}
     dmax = max(expect.values())
@@ -208,6 +219,31 @@ def check_roundtrip(case):
                         'default (fresh signal): simulation %d equals simulation 0' % s, 'fresh-signal')
 
 
+def check_mixture_design(case, dss, mod, theta, pred, z):
+    """rows z_r with equal row sums: ||y_r - y_s||^2 / P = signal * (-1/2) (z_r - z_s)' D (z_r - z_s),
+    D the model's predicted RDM in square form (differences of such rows sum to zero, so only D
+    enters)"""
+    n_cond = z.shape[1]
+    dsq = ref.to_square(np.asarray(pred, dtype=float), n_cond)
+    dmax = case['signal'] * float(np.max(pred))
+    for s, ds in enumerate(dss):
+        meas = np.asarray(ds.measurements, dtype=float)
+        require(meas.shape == (z.shape[0], case['n_channel']), 'simulation %d: measurements %s, '
+                'expected %s' % (s, meas.shape, (z.shape[0], case['n_channel'])), 'shape')
+        check_descriptors(ds, case, mod, theta, z, 0.0)
+        for r in range(z.shape[0]):
+            for q in range(r + 1, z.shape[0]):
+                dz = z[r] - z[q]
+                want = case['signal'] * (-0.5) * float(dz @ dsq @ dz)
+                got = float(np.sum((meas[r] - meas[q]) ** 2)) / case['n_channel']
+                if not core.close(got, want, rtol=1e-5, atol=1e-8 * dmax):
+                    raise Violation('simulation %d, explicit design matrix with mixed rows: squared '
+                                    'distance of observations %d %s and %d %s = %.10g, the design and '
+                                    'the model RDM give %.10g' % (s, r, core._short(z[r]), q,
+                                                                 core._short(z[q]), got, want),
+                                    'exact:design-matrix-rows')
+
+
 def classify_sim(case):
     m = case['model']
     n_cond = len(m['points'])
@@ -237,6 +273,25 @@ def enumerate_designs(tier, seed):
 
 
 def check_design(case):
+    _check_design_once(case)
+    # the returned vectors are the caller's (relabelled, shuffled, trimmed in analysis scripts): a
+    # design requested again afterwards must be a proper design again
+    n_cond, n_part = case['n_cond'], case['n_part']
+    out = lib(sim.make_design, n_cond, n_part, on_error='violation', sig='raises:make_design')
+    for a in out:
+        if isinstance(a, np.ndarray) and a.size:
+            try:
+                a[...] = -7
+            except ValueError:
+                pass        # a read-only result cannot be spoiled
+    try:
+        _check_design_once(case)
+    except Violation as v:
+        raise Violation('after the vectors of an earlier make_design(%d,%d) result were overwritten '
+                        'by the caller: %s' % (n_cond, n_part, v), 'design:result-shared-between-calls')
+
+
+def _check_design_once(case):
     n_cond, n_part = case['n_cond'], case['n_part']
     out = lib(sim.make_design, n_cond, n_part, on_error='violation', sig='raises:make_design')
     require(isinstance(out, tuple) and len(out) == 2, 'make_design returns %r' % (type(out),), 'design:shape')
@@ -271,7 +326,7 @@ def _candidate_draws(record, n_obs, n_channel):
 def check_noise(case):
     mod, theta, pred = model_rdm(case)
     cond_vec, cond_idx = design_of(case)
-    n_obs = len(cond_idx)
+    n_obs = cond_vec.shape[0]
     s1, s2 = case['signal'], case['signal2']
     v1, v2 = case['noise'], case['noise2']
     rec = []
@@ -396,7 +451,7 @@ def model_spec(draw, n_cond):
 
 @st.composite
 def design_spec(draw, n_cond):
-    form = draw(st.sampled_from(['make_design', 'vector', 'matrix']))
+    form = draw(st.sampled_from(['make_design', 'vector', 'matrix', 'mixture']))
     n_part = draw(st.integers(1, 4))
     if form == 'make_design':
         return dict(form=form, n_part=n_part)
@@ -408,6 +463,11 @@ def design_spec(draw, n_cond):
     perm = draw(gen.permutation(len(rows)))
     rows = [rows[i] for i in perm]
     spec = dict(form=form, n_part=n_part, rows=rows)
+    if form == 'mixture':
+        k = draw(st.integers(1, 3))
+        spec['mix'] = [[draw(st.integers(0, 6)), draw(st.integers(0, 6)),
+                        draw(st.sampled_from([0.5, 0.25, 0.75, 0.125]))] for _ in range(k)]
+        spec['order'] = draw(gen.permutation(len(rows) + k))
     if form == 'vector':
         start = draw(st.sampled_from([0, 1, -3, 10]))
         steps = draw(st.lists(st.integers(1, 3), min_size=n_cond, max_size=n_cond))
